@@ -16,6 +16,7 @@
    *_as_coded_refuted are counterexamples for a decoder/encoder as it was coded BEFORE a repair
    (the [_gen true] variant of the definition); the repaired definition has the positive theorem
    next to it. *)
+From DtlsV Require Import Codec.C18Envelope Codec.C18EnvelopeSound.
 From DtlsV Require Import Lib.Bytes Gen.Generated Codec.C18Comb Codec.C18CombSound
   Codec.C18Rec Codec.C18RecSound Codec.C18Hs Codec.C18HsSound Codec.C18Rec13 Codec.C18Rec13Sound
   Codec.C18Ext Codec.C18ExtSound Codec.C18Kx Codec.C18KxSound Codec.C18Hello Codec.C18HelloSound.
@@ -376,6 +377,68 @@ Print Assumptions C18_client_key_exchange_regressions.
 Theorem C18_handshake_envelope : forall kx, wsound (w_hs kx) /\ wrefix (w_hs kx) /\ wtrunc (w_hs kx).
 Proof. exact (fun kx => conj (hs_roundtrip kx) (conj (hs_refix kx) (hs_trunc kx))). Qed.
 Print Assumptions C18_handshake_envelope.
+
+(* the WHOLE type switch of Handshake.Unmarshal, context-dependent messages included (ClientHello,
+   ServerHello / HelloRetryRequest, NewSessionTicket, EncryptedExtensions, ServerKeyExchange under the
+   envelope's key-exchange algorithm, CertificateRequest): round trip and truncation for every value
+   and every context *)
+Theorem C18_handshake_full_envelope : forall kx, wsound (w_hsx kx) /\ wtrunc (w_hsx kx).
+Proof. exact (fun kx => conj (hsx_roundtrip kx) (hsx_trunc kx)). Qed.
+Print Assumptions C18_handshake_full_envelope.
+
+(* whatever Handshake.Unmarshal accepts is 12 header bytes followed by exactly Length =
+   FragmentLength bytes; those bytes, and no others, went to the decoder the type byte selects,
+   which returned a message of that type; the type byte is one the switch has a case for *)
+Theorem C18_handshake_full_envelope_exact : forall kx b h m,
+  bytes_ok b = true -> hsx_unmarshal kx b = Some (h, m) ->
+  exists he body, b = he ++ body /\ length he = 12%nat /\ len body = hh_len h /\ hh_flen h = hh_len h /\
+                  msgx_dec kx (hh_type h) body = Some m /\ msgx_type m = hh_type h /\
+                  memN (hh_type h) hs_types = true.
+Proof. exact hsx_unmarshal_exact. Qed.
+Print Assumptions C18_handshake_full_envelope_exact.
+
+Theorem C18_handshake_full_envelope_length_honoured : forall kx b h m,
+  bytes_ok b = true -> hsx_unmarshal kx b = Some (h, m) -> len b = 12 + hh_len h.
+Proof. exact hsx_length_honoured. Qed.
+Print Assumptions C18_handshake_full_envelope_length_honoured.
+
+(* the switch case by case: which decoder, with which context *)
+Theorem C18_handshake_dispatch : forall kx b,
+  msgx_dec kx 1 b = omap XClientHello (wdec w_client_hello b) /\
+  msgx_dec kx 2 b = omap XServerHello (sh_dec b) /\
+  msgx_dec kx 4 b = omap XNewSessionTicket (wdec w_new_session_ticket b) /\
+  msgx_dec kx 8 b = omap XEncryptedExtensions (wdec w_encrypted_extensions b) /\
+  msgx_dec kx 12 b = omap XServerKeyExchange (ske_dec kx b) /\
+  msgx_dec kx 13 b = omap XCertificateRequest (cr_dec b) /\
+  msgx_dec kx 16 b = omap (fun x => XBase (MClientKeyExchange x)) (cke_dec kx b) /\
+  (forall ty, memN ty [3; 9; 10; 11; 14; 15; 20; 24] = true ->
+              msgx_dec kx ty b = omap XBase (msg_dec 0 ty b)).
+Proof. exact msgx_dispatch. Qed.
+Print Assumptions C18_handshake_dispatch.
+
+Theorem C18_handshake_unknown_type_refused : forall kx ty b,
+  memN ty hs_types = false -> msgx_dec kx ty b = None.
+Proof. exact msgx_dec_unknown. Qed.
+Print Assumptions C18_handshake_unknown_type_refused.
+
+(* the full envelope is a conservative extension of the nine-type one *)
+Theorem C18_handshake_full_extends : forall kx b x, hs_unmarshal kx b = Some x ->
+  hsx_unmarshal kx b = Some (fst x, XBase (snd x)).
+Proof. exact hsx_extends_hs. Qed.
+Print Assumptions C18_handshake_full_extends.
+
+(* REFUTED for the full switch (inherited from ServerKeyExchange, known finding): the re-encoding of
+   an accepted envelope need not be accepted again *)
+Theorem C18_handshake_full_fixpoint_refuted :
+  exists b x e, bytes_ok b = true /\ hsx_unmarshal 4 b = Some x /\ hsx_marshal x = Some e /\
+                hsx_unmarshal 4 e = None.
+Proof. exact hsx_fixpoint_refuted. Qed.
+Print Assumptions C18_handshake_full_fixpoint_refuted.
+
+Example C18_full_envelope_nonvacuous :
+  hsx_wf 4 (mk_hshdr 12 10 7 0 10, XServerKeyExchange (None, (3, (29, ([170], (4, (3, [187]))))))) = true /\
+  hsx_unmarshal 0 [14; 0; 0; 0; 0; 5; 0; 0; 0; 0; 0; 0] = Some (mk_hshdr 14 0 5 0 0, XBase MServerHelloDone).
+Proof. split; vm_compute; reflexivity. Qed.
 
 Theorem C18_handshake_fragment_reencode_refuted :
   exists b x, bytes_ok b = true /\ hs_unmarshal 0 b = Some x /\ hs_marshal x = None.
